@@ -6,6 +6,7 @@ C17  Allocation-free search equals the allocating one for every buffer size.
 -/
 import TzVerif.Model.Find
 import TzVerif.Proofs.Buffer
+import TzVerif.Proofs.SrcEqFind
 
 namespace TzVerif.C17
 open TzVerif.Model
@@ -48,5 +49,23 @@ example :
     let a : Found := .normal default
     let r := [a, a].foldl RefMut.push (RefMut.new [none])
     r.count = 2 ∧ r.isExhaustive = false ∧ r.data = [some a] := by decide
+
+/-! ### The same about the source text
+`TzVerif.Src.find_date_time` is src/datetime/find.rs `find_date_time` translated to Lean on every run
+(tools/rs2lean.py, DESIGN §13): both loops, the memoising `get_time` closure and every early return. It equals
+the model's search, so every theorem of this file is about the code as it is now. -/
+
+theorem translated_source_is_the_model (y mo d h mi s ns : Int) (z : TimeZone) :
+    Src.find_date_time [] y mo d h mi s ns z = findDateTime y mo d h mi s ns z :=
+  Proofs.SrcEq.find_date_time_eq y mo d h mi s ns z
+
+/-- `same_search` with the translated search: both entry points hold exactly what the source's `find_date_time`
+    pushes (the two `DateTimeList` containers themselves are modelled, not translated) -/
+theorem same_search_src (buf : List (Option Found)) (y mo d h mi s ns : Int) (z : TimeZone) :
+    findN buf y mo d h mi s ns z =
+      (match Src.find_date_time [] y mo d h mi s ns z with
+       | .error e => .error e
+       | .ok rs => .ok (rs.foldl RefMut.push (RefMut.new buf))) := by
+  rw [Proofs.SrcEq.find_date_time_eq]; exact same_search buf y mo d h mi s ns z
 
 end TzVerif.C17
